@@ -173,6 +173,10 @@ def run(chk):
     chk.assume("the asm loops are bottom-tested over N/8 vectors: N is a multiple of 8 and >= 8 (ring degree 1024, C19.R3)")
     for v in prog.variants():
         chk.analysed["variants"] = chk.analysed.get("variants", 0) + 1
+        # R8 the bit algebra of R1..R5 reads `>>` as the logical shift: every right shift of the gadget code must act on an unsigned
+        # (or non-negative) operand -- `1 << (32 - Bgbit)` kept in a signed variable is INT32_MIN for Bgbit = 1
+        from sa import shifts as _shifts
+        _shifts.check(chk, v, "R8", ["libtfhe/tgsw.cpp", "libtfhe/tgsw-functions.cpp"], "gadget and decomposition")
         check_variant(chk, v)
 
 
